@@ -156,8 +156,8 @@ RG="oidc.randomGenerator."
 P['C06']={
  "functions":[RG+"generate","oidc.NewRandomGenerator"],
  "refines":[RG+"GenerateSessionID",RG+"GenerateNonce",RG+"GenerateState",RG+"GenerateCodeVerifier"],
- "posts":{"server.ExtAuthZFilter.Check":["err_no_verdict"]},
- "required":[RG+"generate:post:crypto", RG+"GenerateSessionID:refine:SessionGenerator.GenerateSessionID.crypto", "server.ExtAuthZFilter.Check:pre@call:NewOIDCHandler.secure_generator", "oidc.NewRandomGenerator:post:secure"],
+ "posts":{"server.ExtAuthZFilter.Check":["err_no_verdict"], H+"redirectToIDP":["fresh_values"]},
+ "required":[H+"redirectToIDP:post:fresh_values", RG+"generate:post:crypto", RG+"GenerateSessionID:refine:SessionGenerator.GenerateSessionID.crypto", "server.ExtAuthZFilter.Check:pre@call:NewOIDCHandler.secure_generator", "oidc.NewRandomGenerator:post:secure"],
  "assumptions":["A-CRYPTO: the bytes of distinct crypto/rand.Read calls are unpredictable and independent of each other and of everything else","A-S256 / oauth2.GenerateVerifier: the PKCE verifier comes from crypto/rand inside golang.org/x/oauth2 (trusted)"],
  "note":"decided as a functional provenance contract: every session id / state / nonce is shown to be a fixed function (alphabet character selected by byte i modulo 62) of the bytes of ONE crypto/rand.Read made in that call, and of nothing else (not the time, not request data, not other identifiers); the only generator server.Check hands to the handler is the randomGenerator. The statistical quality of the draw (modulo bias 256 mod 62) is not decided"}
 T="internal.tlsConfigPool."
